@@ -16,6 +16,8 @@ claimed = {
          "Interleavings are NOT decided: the Owicki-Gries layer of DESIGN.md section 4 is not built, so 'under every interleaving' is covered only for the schedule-independent facts above; the check-then-Add window of pushBusy (A22) is a defect seen by reading that no built obligation expresses. sync.WaitGroup/Once and close(chan) are trusted contracts; plain bool fields are treated as sequentially consistent.", "4 (C09)"),
  "C02": ("The unwinding loop of the real vm.RunFrame is proved, one iteration at a time, against the CPython 3.4 unwinding table (DESIGN Appendix C): for the block on top and the pending reason, the step clauses fix the resulting reason, resume address, block-stack length, value-stack depth and contents (continue re-enters the loop, break truncates to the block level, an exception entering an except/finally block pushes exactly six values - old and new exception triples - and installs an ExceptHandler block at the unwound level with the pending exception cleared and made current, return/continue/break entering a finally block push the return value and the reason code, an ExceptHandler block restores the saved exception and keeps unwinding, every other pair pops and continues). The invariants vm.frame == frame, well-formed block stack and non-negative block levels are proved on entry and preserved. END_FINALLY, POP_EXCEPT, POP_BLOCK, SETUP_LOOP/EXCEPT/FINALLY, BREAK_LOOP, CONTINUE_LOOP, RETURN_VALUE, UnwindBlock, UnwindExceptHandler, PushBlock and PopBlock carry exact per-mode contracts; FOR_ITER ends the loop only on StopIteration and returns any other error unchanged; the traceback line is the line of the last byte of the raising instruction.",
          "The opcode dispatch inside RunFrame is abstracted by the generic handler contract jumpTable_entry (frame pointer and block-stack well-formedness preserved; assumed, each handler proves it individually under C12); exception class matching (IsException/IsSubtype) and the line table decoder are named by abstract functions with trusted definitional contracts; WITH_CLEANUP, SETUP_WITH, RAISE_VARARGS and the compiler's code generation for try/with are not under contract; the precondition sp >= level + 3 of UnwindExceptHandler and Lasti >= 0 at AddTraceback are not established (listed as undischarged).", "4 (C02)"),
+ "C05": ("Iteration protocol as a per-activation ghost: lasterr[0] is the error returned by the last Next call of the current activation (nil at entry, set by Next's contract, untouched by callees). Consumers (py.Iterate, str.join, all, any, sum, min/max, next, unpack_iterable, FOR_ITER) are proved to end normally when that error is a StopIteration by class or instance (abstract predicate excmatch, the value py.IsException returns) and to return exactly that error otherwise; the adapters filter/map/zip/enumerate pass every error on unchanged; Generator.Send is proved against the state machine NotStarted/Suspended/Running/Done (running => ValueError with the frame untouched, exhausted stays exhausted, an error from the frame finishes the generator, a value is returned only while suspended).",
+         "py.Next and py.IsException are trusted contracts (Next sets the ghost; IsException == excmatch); the callback of Iterate and user-defined __next__ are arbitrary code (modifies everything); consumers built on Iterate (list(), tuple(), set(), star-calls) inherit its contract without being checked themselves; YIELD_FROM, sorted, math.fsum and stdlib/array are not under contract; RunFrame re-entry (locals preserved across suspension) is assumed.", "4 (C05)"),
 }
 na = {
  "C06": "not applicable to this technique family: the only faithful specification of the LALR parser is the grammar itself (DESIGN.md section 5)",
